@@ -1,0 +1,363 @@
+//go:build verif
+// +build verif
+
+// Contracts for the flv package (build tag verif; never compiled into the library).
+// Specification source: Adobe "Video File Format Specification Version 10", Annex E (E.2 header, E.3 body, E.4.1 tag,
+// E.4.2.1 AUDIODATA, E.4.3.1 VIDEODATA), the Opus extension documented in flv.go, and the statements of C09/C10.
+
+package flv
+
+func prim_sameslice(a, b []byte) bool {
+	return len(a) == len(b) && (len(a) == 0 || &a[0] == &b[0])
+}
+
+func prim_eqbytes(a, b []byte) bool {
+	if len(a) != len(b) {
+		return false
+	}
+	for i := range a {
+		if a[i] != b[i] {
+			return false
+		}
+	}
+	return true
+}
+
+func prim_fresh(a []byte) bool { return true } // "allocated during the call"; not observable at run time
+
+// ---------- C10: audio tag body (E.4.2.1) ----------
+
+func spec_isOpusRate(r AudioSamplingRate) bool {
+	return r == 8 || r == 12 || r == 16 || r == 24 || r == 48
+}
+
+// The audio frames of the statement: all 16 sound formats, rate/size/channel bits, AAC packet trait, Opus trait
+// flags with the optional sampling-rate byte and the 16-bit audio level.
+func spec_wfAudio(f *AudioFrame) bool {
+	if f.SoundFormat > 15 || f.SoundSize > 1 || f.SoundType > 1 {
+		return false
+	}
+	switch f.SoundFormat {
+	case AudioCodecAAC:
+		return f.SoundRate <= 3 && f.AudioLevel == 0
+	case AudioCodecOpus:
+		if f.Trait&AudioFrameTraitOpusSamplingRate != 0 {
+			if !spec_isOpusRate(f.SoundRate) {
+				return false
+			}
+		} else if f.SoundRate != 0 {
+			return false
+		}
+		if f.Trait&AudioFrameTraitOpusAudioLevel == 0 && f.AudioLevel != 0 {
+			return false
+		}
+		return true
+	}
+	return f.SoundRate <= 3 && f.AudioLevel == 0 && f.Trait == 0
+}
+
+// number of bytes in front of the payload
+func spec_audioHeaderLen(format AudioCodec, trait AudioFrameTrait) int {
+	switch format {
+	case AudioCodecAAC:
+		return 2
+	case AudioCodecOpus:
+		n := 2
+		if trait&AudioFrameTraitOpusSamplingRate != 0 {
+			n++
+		}
+		if trait&AudioFrameTraitOpusAudioLevel != 0 {
+			n += 2
+		}
+		return n
+	}
+	return 1
+}
+
+//@ requires (*audioPackager).Encode
+func req_audioEncode(frame *AudioFrame) bool {
+	return frame != nil && spec_wfAudio(frame)
+}
+
+//@ ensures (*audioPackager).Encode C10.audio.encode.len
+func ens_audioEncode_len(frame *AudioFrame, tag []byte, err error) bool {
+	return err == nil && len(tag) == spec_audioHeaderLen(frame.SoundFormat, frame.Trait)+len(frame.Raw)
+}
+
+// SoundFormat(4) SoundRate(2) SoundSize(1) SoundType(1): the codec id readable in the first byte is the frame's
+//@ ensures (*audioPackager).Encode C10.audio.encode.first-byte
+func ens_audioEncode_first(frame *AudioFrame, tag []byte, err error) bool {
+	if err != nil || len(tag) < 1 {
+		return false
+	}
+	rate := uint8(frame.SoundRate)
+	if frame.SoundFormat == AudioCodecOpus {
+		rate = 0
+	}
+	return tag[0]>>4 == uint8(frame.SoundFormat) && (tag[0]>>2)&3 == rate && (tag[0]>>1)&1 == uint8(frame.SoundSize) && tag[0]&1 == uint8(frame.SoundType)
+}
+
+//@ ensures (*audioPackager).Encode C10.audio.encode.trait
+func ens_audioEncode_trait(frame *AudioFrame, tag []byte, err error) bool {
+	if err != nil {
+		return false
+	}
+	f := frame
+	if f.SoundFormat != AudioCodecAAC && f.SoundFormat != AudioCodecOpus {
+		return true
+	}
+	if len(tag) < spec_audioHeaderLen(f.SoundFormat, f.Trait) || tag[1] != uint8(f.Trait) {
+		return false
+	}
+	if f.SoundFormat == AudioCodecAAC {
+		return true
+	}
+	p := 2
+	if f.Trait&AudioFrameTraitOpusSamplingRate != 0 {
+		if tag[p] != uint8(f.SoundRate) {
+			return false
+		}
+		p++
+	}
+	if f.Trait&AudioFrameTraitOpusAudioLevel != 0 {
+		if tag[p] != uint8(f.AudioLevel>>8) || tag[p+1] != uint8(f.AudioLevel) {
+			return false
+		}
+	}
+	return true
+}
+
+//@ ensures (*audioPackager).Encode C10.audio.encode.payload
+func ens_audioEncode_payload(frame *AudioFrame, tag []byte, err error) bool {
+	n := spec_audioHeaderLen(frame.SoundFormat, frame.Trait)
+	return err == nil && len(tag) >= n && prim_eqbytes(tag[n:], frame.Raw) && prim_fresh(tag)
+}
+
+// what a body must contain to be a complete audio tag body
+func spec_audioBodyComplete(tag []byte) bool {
+	if len(tag) < 1 {
+		return false
+	}
+	format := AudioCodec(tag[0] >> 4)
+	if format != AudioCodecAAC && format != AudioCodecOpus {
+		return true
+	}
+	if len(tag) < 2 {
+		return false
+	}
+	return len(tag) >= spec_audioHeaderLen(format, AudioFrameTrait(tag[1]))
+}
+
+//@ ensures (*audioPackager).Decode C10.audio.decode.accepts
+func ens_audioDecode_accepts(tag []byte, frame *AudioFrame, err error) bool {
+	if spec_audioBodyComplete(tag) {
+		return err == nil && frame != nil
+	}
+	return true
+}
+
+//@ ensures (*audioPackager).Decode C10.audio.decode.fields
+func ens_audioDecode_fields(tag []byte, frame *AudioFrame, err error) bool {
+	if err != nil {
+		return true
+	}
+	if frame == nil || !spec_audioBodyComplete(tag) {
+		return false
+	}
+	f := frame
+	if uint8(f.SoundFormat) != tag[0]>>4 || uint8(f.SoundSize) != (tag[0]>>1)&1 || uint8(f.SoundType) != tag[0]&1 {
+		return false
+	}
+	n := spec_audioHeaderLen(f.SoundFormat, 0)
+	rate, level, trait := (tag[0]>>2)&3, uint16(0), uint8(0)
+	if f.SoundFormat == AudioCodecAAC || f.SoundFormat == AudioCodecOpus {
+		trait = tag[1]
+		n = spec_audioHeaderLen(f.SoundFormat, AudioFrameTrait(trait))
+	}
+	if f.SoundFormat == AudioCodecOpus {
+		p := 2
+		if trait&uint8(AudioFrameTraitOpusSamplingRate) != 0 {
+			rate = tag[p]
+			p++
+		}
+		if trait&uint8(AudioFrameTraitOpusAudioLevel) != 0 {
+			level = uint16(tag[p])<<8 | uint16(tag[p+1])
+		}
+	}
+	return uint8(f.SoundRate) == rate && f.AudioLevel == level && uint8(f.Trait) == trait && prim_sameslice(f.Raw, tag[n:])
+}
+
+// decode(encode(f)) == f for every well-formed audio frame and every payload
+//@ requires lemma_C10_audioRoundtrip
+func req_lemma_audioRoundtrip(f *AudioFrame) bool { return f != nil && spec_wfAudio(f) }
+
+//@ lemma C10.audio.roundtrip
+func lemma_C10_audioRoundtrip(f *AudioFrame) bool {
+	p := &audioPackager{}
+	tag, err := p.Encode(f)
+	if err != nil {
+		return false
+	}
+	g, err := p.Decode(tag)
+	return err == nil && g != nil && g.SoundFormat == f.SoundFormat && g.SoundRate == f.SoundRate && g.SoundSize == f.SoundSize &&
+		g.SoundType == f.SoundType && g.Trait == f.Trait && g.AudioLevel == f.AudioLevel && prim_eqbytes(g.Raw, f.Raw)
+}
+
+// encode(decode(b)) == b for every canonical body the packager accepts (canonical: the optional Opus fields hold
+// what the encoder would write: a defined Opus rate; first-byte rate bits zero for Opus)
+//@ lemma C10.audio.roundtrip-bytes
+func lemma_C10_audioRoundtripBytes(b []byte) bool {
+	p := &audioPackager{}
+	f, err := p.Decode(b)
+	if err != nil || f == nil {
+		return true
+	}
+	if !spec_wfAudio(f) || (f.SoundFormat == AudioCodecOpus && (b[0]>>2)&3 != 0) {
+		return true // not canonical
+	}
+	out, err := p.Encode(f)
+	return err == nil && prim_eqbytes(out, b)
+}
+
+// ---------- C10: video tag body (E.4.3.1) ----------
+
+func spec_isAVClike(c VideoCodec) bool { return c == VideoCodecAVC || c == VideoCodecHEVC }
+
+func spec_wfVideo(f *VideoFrame) bool {
+	if f.FrameType > 15 || f.CodecID > 15 {
+		return false
+	}
+	if spec_isAVClike(f.CodecID) {
+		return f.CTS >= 0 && f.CTS < 1<<24
+	}
+	return f.Trait == 0 && f.CTS == 0
+}
+
+func spec_videoHeaderLen(c VideoCodec) int {
+	if spec_isAVClike(c) {
+		return 5
+	}
+	return 1
+}
+
+//@ requires (videoPackager).Encode
+func req_videoEncode(frame *VideoFrame) bool { return frame != nil && spec_wfVideo(frame) }
+
+// FrameType(4) CodecID(4) [AVCPacketType(8) CompositionTime(SI24)] payload
+//@ ensures (videoPackager).Encode C10.video.encode.layout
+func ens_videoEncode_layout(frame *VideoFrame, tag []byte, err error) bool {
+	n := spec_videoHeaderLen(frame.CodecID)
+	if err != nil || len(tag) != n+len(frame.Raw) {
+		return false
+	}
+	if tag[0]>>4 != uint8(frame.FrameType) || tag[0]&0x0f != uint8(frame.CodecID) {
+		return false
+	}
+	if n == 5 && (tag[1] != uint8(frame.Trait) || tag[2] != uint8(frame.CTS>>16) || tag[3] != uint8(frame.CTS>>8) || tag[4] != uint8(frame.CTS)) {
+		return false
+	}
+	return prim_eqbytes(tag[n:], frame.Raw) && prim_fresh(tag)
+}
+
+func spec_videoBodyComplete(tag []byte) bool {
+	return len(tag) >= 1 && len(tag) >= spec_videoHeaderLen(VideoCodec(tag[0]&0x0f))
+}
+
+//@ ensures (*videoPackager).Decode C10.video.decode.accepts
+func ens_videoDecode_accepts(tag []byte, frame *VideoFrame, err error) bool {
+	if spec_videoBodyComplete(tag) {
+		return err == nil && frame != nil
+	}
+	return true
+}
+
+//@ ensures (*videoPackager).Decode C10.video.decode.fields
+func ens_videoDecode_fields(tag []byte, frame *VideoFrame, err error) bool {
+	if err != nil {
+		return true
+	}
+	if frame == nil || !spec_videoBodyComplete(tag) {
+		return false
+	}
+	f := frame
+	if uint8(f.FrameType) != tag[0]>>4 || uint8(f.CodecID) != tag[0]&0x0f {
+		return false
+	}
+	if spec_isAVClike(f.CodecID) {
+		return uint8(f.Trait) == tag[1] && f.CTS == int32(uint32(tag[2])<<16|uint32(tag[3])<<8|uint32(tag[4])) && prim_sameslice(f.Raw, tag[5:])
+	}
+	return f.Trait == 0 && f.CTS == 0 && prim_sameslice(f.Raw, tag[1:])
+}
+
+//@ requires lemma_C10_videoRoundtrip
+func req_lemma_videoRoundtrip(f *VideoFrame) bool { return f != nil && spec_wfVideo(f) }
+
+//@ lemma C10.video.roundtrip
+func lemma_C10_videoRoundtrip(f *VideoFrame) bool {
+	var enc videoPackager
+	tag, err := enc.Encode(f)
+	if err != nil {
+		return false
+	}
+	dec := &videoPackager{}
+	g, err := dec.Decode(tag)
+	return err == nil && g != nil && g.CodecID == f.CodecID && g.FrameType == f.FrameType && g.Trait == f.Trait && g.CTS == f.CTS && prim_eqbytes(g.Raw, f.Raw)
+}
+
+//@ lemma C10.video.roundtrip-bytes
+func lemma_C10_videoRoundtripBytes(b []byte) bool {
+	dec := &videoPackager{}
+	f, err := dec.Decode(b)
+	if err != nil || f == nil {
+		return true
+	}
+	var enc videoPackager
+	out, err := enc.Encode(f)
+	return err == nil && prim_eqbytes(out, b)
+}
+
+// ---------- C10: rate codes ----------
+
+// FLV SoundRate: 0 = 5.5 kHz, 1 = 11 kHz, 2 = 22 kHz, 3 = 44 kHz (E.4.2.1)
+//@ ensures AudioSamplingRate.ToHz C10.rate.flv
+func ens_ToHz(v AudioSamplingRate, ret0 int) bool {
+	switch v {
+	case 0:
+		return ret0 == 5512
+	case 1:
+		return ret0 == 11025
+	case 2:
+		return ret0 == 22050
+	case 3:
+		return ret0 == 44100
+	}
+	return true
+}
+
+// Opus: NB 8 kHz, MB 12 kHz, WB 16 kHz, SWB 24 kHz, FB 48 kHz (RFC 6716 section 2)
+//@ ensures AudioSamplingRate.OpusToHz C10.rate.opus
+func ens_OpusToHz(v AudioSamplingRate, ret0 int) bool {
+	if spec_isOpusRate(v) {
+		return ret0 == int(v)*1000
+	}
+	return true
+}
+
+// ---------- C07: totality of helpers, decoders never panic ----------
+
+//@ safe TagType.String C07
+//@ safe AudioFrameTrait.String C07
+//@ safe AudioChannels.String C07
+//@ safe (*AudioChannels).From C07
+//@ safe AudioSampleBits.String C07
+//@ safe AudioSamplingRate.String C07
+//@ safe AudioSamplingRate.ToHz C07
+//@ safe (*AudioSamplingRate).From C07
+//@ safe AudioSamplingRate.OpusToHz C07
+//@ safe (*AudioSamplingRate).OpusFrom C07
+//@ safe AudioCodec.String C07
+//@ safe VideoFrameType.String C07
+//@ safe VideoCodec.String C07
+//@ safe VideoFrameTrait.String C07
+//@ safe (*audioPackager).Decode C07
+//@ safe (*videoPackager).Decode C07
